@@ -12,6 +12,8 @@ scenario = {
 }
 """
 import random
+import logging
+logging.disable(logging.CRITICAL)
 
 import vt
 
@@ -140,7 +142,7 @@ def run(sc):
             sim.api(n, "send_pgn", call, dp=s["dp"], pf=s["pf"], ps=s["ps"], prio=s["prio"], sa=s["sa"],
                     data=list(data), tl=tl, ff=ff)
         else:
-            sim.log({"ev": "ptx", "node": s["node"], "id": s["id"], "data": list(s["data"]), "fd": bool(s.get("fd", False))})
+            sim.log({"ev": "ptx", "node": s["node"], "id": s["id"], "data": list(s["data"]), "fd": bool(s.get("fd", False)), "ext": True})
             sim.inject(n, s["id"], s["data"], fd=s.get("fd", False))
     sim.run(sc.get("dur", 2_000_000))
     sim.log({"ev": "end", "node": sc["nodes"][0]["name"]})
